@@ -1200,7 +1200,7 @@ impl Mon {
         self.b_on_apply(ni, e, applied_before, nodes, op);
     }
 
-    pub fn after_apply(&mut self, ni: usize, e: &Entry, new_conf: Option<&ConfState>, nodes: &[Node], op: usize) {
+    pub fn after_apply(&mut self, ni: usize, e: &Entry, new_conf: Option<&ConfState>, stale_conf_before: Option<&ConfView>, nodes: &[Node], op: usize) {
         if new_conf.is_some() {
             self.flags |= F_CONF_APPLIED;
         }
@@ -1220,7 +1220,7 @@ impl Mon {
             }
         }
         let _ = EntryType::EntryNormal;
-        self.b_after_apply(ni, e, new_conf, &app, nodes, op);
+        self.b_after_apply(ni, e, new_conf, stale_conf_before, &app, nodes, op);
     }
 
     pub fn on_snapshot_installed(&mut self, ni: usize, s: &Snapshot, nodes: &[Node], op: usize) {
